@@ -403,3 +403,45 @@ def simulate(recipe, budget, words):
         if recipe.satisfies(cand):
             return ("ok", cand, 4 * pos)
     return ("exhausted", None, 4 * pos)
+
+
+# ---------------------------------------------------------------- deterministic interleavings of two generations
+
+def interleave_cases(ctx, npairs):
+    """pairs of character generations (recipe, tape) and every parking point k of the first one: the second generation runs
+    to completion inside the first one's k-th read of the random source"""
+    rng = ctx.rng
+    pool = [Recipe(6, allow=15, exclude=16), Recipe(5, allow=3, require=4), Recipe(3, allow=4), Recipe(4, allow_chars="é€ab", require_sets=["é"]),
+            Recipe(8, allow=2, require=12), Recipe(2, allow=8)]
+    cases = []
+    for _ in range(npairs):
+        ra, rb = rng.choice(pool), rng.choice(pool)
+        tapes = []
+        for r in (ra, rb):
+            g = good_candidate(rng, r)
+            bad = bad_candidate(rng, r)
+            vecs = ([bad] if bad and rng.random() < 0.4 else []) + [g]
+            ws, _ = tape_for(rng, len(r.alphabet()), vecs, rejections=0.2)
+            tapes.append(ws)
+        reads = len(tapes[0])
+        ks = sorted(set([1, reads, max(1, reads // 2)] + [rng.randrange(1, reads + 1) for _ in range(3)]))
+        for k in ks:
+            line = "interleave %s %s %d %d %d %d %s %s" % (ra.tokens(), rb.tokens(), DEFAULT_BUDGET[0], DEFAULT_BUDGET[1], DEFAULT_BUDGET[2], k,
+                                                            core.src_tokens(core.flat_tape(tapes[0])), core.src_tokens(core.flat_tape(tapes[1])))
+            cases.append((line, {"k": k, "reads": reads, "recipeA": ra.to_json(), "recipeB": rb.to_json()}))
+    return cases
+
+
+def run_interleave(ctx, cases, prop):
+    """runs both sides; a generation whose interleaved result differs from its sequential result is a violation of `prop`"""
+    res = ctx.compare("interleave", cases)
+    for meta, a, b in res:
+        if a is None:
+            continue
+        f = dict(t.split("=", 1) for t in a.split(" ") if "=" in t and not t.startswith(("stdout=", "stderr=")))
+        ctx.nontrivial.add(("interleave", str(meta["recipeA"]), str(meta["recipeB"]), meta["k"]))
+        if f.get("seqA") != f.get("ilA") or f.get("seqB") != f.get("ilB"):
+            ctx.violations.append({"finding_key": prop + "-interleave", "line": [c[0] for c in cases if c[1] is meta][0], "observed": a[:300],
+                                   "what": "a generation fed the same source bytes made different choices when another generation ran in between "
+                                           "(sequential %s / %s, interleaved %s / %s)" % (f.get("seqA"), f.get("seqB"), f.get("ilA"), f.get("ilB"))})
+    return res
